@@ -1,4 +1,5 @@
 (* C03 - attribute sets are validated per declared uses, value constraints and wildcards. *)
+From XV Require Attrs AttrValues AttrValuesProofs.
 From XV Require Import Base Wildcard Attrs AttrsProofs.
 
 Theorem C03_validate_correct : forall e g attrs,
@@ -27,3 +28,35 @@ Example C03_prohibited_wildcard :
   /\ validate_attrs ex_env {| decls := [ex_decl]; wild := Some ({| sh := SOther; wtns := 5%N |}, Skip) |} [((0, 3), 1)]%N
      = [EProhibited (0, 3)%N].
 Proof. vm_compute. split; reflexivity. Qed.
+
+(* ---- values reported for absent attributes (model: AttrValues.v) *)
+Theorem C03_absent_fixed_reported : forall g ud fm attrs d f,
+  In d (Attrs.decls g) -> Attrs.a_fixed d = Some f -> Attrs.present attrs (Attrs.a_name d) = false ->
+  In (Attrs.a_name d, Some f) (AttrValues.filled_values g ud fm attrs).
+Proof. exact AttrValuesProofs.absent_fixed_reported. Qed.
+Print Assumptions C03_absent_fixed_reported.
+
+Theorem C03_absent_default_iff_use_defaults : forall g ud fm attrs d v,
+  NoDup (map Attrs.a_name (Attrs.decls g)) ->
+  In d (Attrs.decls g) -> Attrs.a_fixed d = None -> Attrs.a_default d = Some v ->
+  Attrs.present attrs (Attrs.a_name d) = false ->
+  (In (Attrs.a_name d, Some v) (AttrValues.filled_values g ud fm attrs) <-> ud = true).
+Proof. exact AttrValuesProofs.absent_default_iff. Qed.
+Print Assumptions C03_absent_default_iff_use_defaults.
+
+Theorem C03_no_other_absent_attribute : forall g ud attrs n v,
+  In (n, v) (AttrValues.filled_values g ud false attrs) ->
+  exists d, In d (Attrs.decls g) /\ Attrs.a_name d = n /\
+            (Attrs.a_fixed d <> None \/ (ud = true /\ Attrs.a_default d <> None)).
+Proof. exact AttrValuesProofs.nothing_else_without_fill. Qed.
+Print Assumptions C03_no_other_absent_attribute.
+
+Theorem C03_filled_values_names : forall g ud fm attrs,
+  map fst (AttrValues.filled_values g ud fm attrs) = Attrs.filled g ud fm attrs.
+Proof. exact AttrValuesProofs.filled_names. Qed.
+Print Assumptions C03_filled_values_names.
+
+Theorem C03_default_before_fixed_refuted : exists d, Attrs.a_fixed d = Some 2%N /\
+  AttrValues.absent_value_default_first true false d <> Some (Some 2%N).
+Proof. exact AttrValuesProofs.default_first_refuted. Qed.
+Print Assumptions C03_default_before_fixed_refuted.
